@@ -234,7 +234,8 @@ impl GenerationPass for AvailableValuePass {
                     // Writes that may land in the frame without naming one
                     // of its slots: a store through a register that is not
                     // known to point elsewhere, and whatever a called
-                    // function does with a pointer it was handed. The saved
+                    // function or the environment does with a pointer it was
+                    // handed. The saved
                     // registers are taken to survive (a program that
                     // overwrites those is broken in any case); every other
                     // remembered slot is forgotten.
@@ -260,7 +261,9 @@ impl GenerationPass for AvailableValuePass {
                                 _ => true,
                             }
                         }
-                        _ => node.calls_to().is_some(),
+                        // (an environment call may fill a buffer it was
+                        // handed, which can lie in the frame as well)
+                        _ => node.calls_to().is_some() || node.is_ecall(),
                     };
                     if may_write_frame {
                         map = map
